@@ -279,6 +279,12 @@ func (Engine) Gen(seed uint64, idx int, tier string) interface{} {
 	case x < 8 && r.Chance(1, 3):
 		sc.Src = stressStmt(r)
 		sc.Name = "<stress>"
+	case x < 8 && r.Chance(1, 2):
+		sc.Src = litFuzz(r)
+		if r.Chance(1, 2) {
+			sc.Src += litFuzz(r)
+		}
+		sc.Name = "<stress>"
 	case x < 8:
 		// a seeded sequence of tokens / fragments (keywords, operators, literals
 		// incl. malformed ones, indentation, control bytes, non-ASCII)
